@@ -485,9 +485,20 @@ impl P2p {
         // User can give us a bad header, so validate it.
         from.validate().map_err(|_| HeaderExError::InvalidRequest)?;
 
+        if amount == 0 {
+            // Nothing to fetch. An empty range would make the `HeaderSession`
+            // re-send a request that can only be answered with `InvalidRequest`.
+            return Ok(Vec::new());
+        }
+
         let height = from.height() + 1;
 
-        let range = height..=height + amount - 1;
+        // `amount` comes from the user, make sure the last height is representable.
+        let last_height = height
+            .checked_add(amount - 1)
+            .ok_or(HeaderExError::InvalidRequest)?;
+
+        let range = height..=last_height;
 
         let mut session = HeaderSession::new(range, self.cmd_tx.clone());
         let headers = session.run().await?;
